@@ -21,9 +21,9 @@ RULE = ('A case is one fork history. sqlite: parent state at the fork in {discon
         'after commit, a @db_session generator suspended after a read; grid only: another THREAD of the parent inside a write transaction} x order {child first, parent first} x child script (read, write+commit, db.get_connection, disconnect, '
         'rollback, read whose first connection attempt fails once (fault injected in the sqlite3 factory), generator resume/write, nested fork with its own script; length 1..5) x parent script after the fork (read, write, commit, '
         'end_session, disconnect; length 0..4); a complete grid of 6x2x7x3 short scripts + 20 generator histories (quick tier: alternating halves by seed parity) plus hypothesis-drawn longer ones. '
-        'pool: op lists over connect/use/release/drop/disconnect/gc/fail_next (the next driver-level connect of the process raises once) with forks nested to depth 2 on the generic Pool and on '
-        'OraPool (a grid of 2x4x6x2 short ones plus hypothesis-drawn ones). Non-trivial = at the fork point the forking process held a pooled/open connection AND a forked process '
-        'issued at least one statement (sqlite) / called connect() (pool). Distinct by the whole case.')
+        'pool: op lists over connect/use/release/drop/disconnect/gc/fail_next (the next driver-level connect of the process raises once) with forks nested to depth 3 (including chains whose intermediate processes do nothing) on the generic Pool and on '
+        'OraPool (a grid of 2x4x6x2 short ones + 48 fork chains plus hypothesis-drawn ones). Non-trivial = at the fork point the forking process held a pooled/open connection AND a forked process '
+        'issued at least one statement (sqlite) / called connect() or disconnect() while its pool held an inherited object (pool). Distinct by the whole case.')
 ASSUMPTIONS = ['real os.fork() on Linux; sqlite3 3.40 file database in rollback-journal mode, busy timeout 0.15 s',
                'a connection object belongs to the process whose pid created it (recorded by the sqlite3.Connection subclass / '
                'the fake driver objects); commit()/rollback()/close() of python sqlite3 that send nothing (no open transaction) '
@@ -56,6 +56,14 @@ def grid_cases():
                 for after in PARENT_SCRIPTS:
                     out.append(normalise({'kind': 'sqlite', 'parent_state': state, 'order': order,
                                           'child': child, 'parent_after': after}))
+    # fork chains below the child: the intermediate process does nothing / reads, the last one disconnects first or meets
+    # a failing first connect
+    for state in ('idle', 'open_read', 'after_commit'):
+        for child in ([['fork', [['fork', ['disconnect', 'read', 'write']]]]],
+                      [['fork', ['read', ['fork', ['fail_connect', 'read', 'write', 'disconnect']]]]],
+                      [['fork', [['fork', [['fork', ['write', 'disconnect', 'read']]]]]]]):
+            out.append(normalise({'kind': 'sqlite', 'parent_state': state, 'order': 'child_first',
+                                  'child': child, 'parent_after': ['commit', 'read']}))
     # a @db_session generator of the parent is suspended at the fork point and resumed on both sides
     for order in ('child_first', 'parent_first'):
         for child in (['gen_next'], ['gen_write', 'read'], ['read', 'gen_write', 'gen_next'], [['fork', ['gen_write']]],
@@ -78,8 +86,36 @@ POOL_CHILD = [['connect', 'use', 'release'], ['disconnect', 'gc', 'connect'], ['
 POOL_SUFFIX = [[], ['connect', 'use', 'release']]
 
 
-def pool_grid_cases():
+# fork chains: the process that opened the pooled connection is an ANCESTOR, the processes in between do nothing or
+# something else, the last one disconnects / connects (possibly after an injected connect failure)
+CHAIN_PREFIX = [['connect'], ['connect', 'use', 'release']]
+CHAIN_INTER = [[], ['connect', 'release']]
+CHAIN_LEAF = [['disconnect'], ['disconnect', 'connect', 'use', 'release'], ['fail_next', 'connect', 'disconnect', 'connect', 'release']]
+
+
+def _chain(inter, leaf, depth):
+    ops = list(leaf)
+    for _ in range(depth):
+        ops = list(inter) + [['fork', ops]]
+        inter = inter            # the same intermediate behaviour on every level
+    return ops
+
+
+def pool_chain_cases():
     out = []
+    for kind in ('generic', 'oracle'):
+        for pre in CHAIN_PREFIX:
+            for inter in CHAIN_INTER:
+                for leaf in CHAIN_LEAF:
+                    for depth in (2, 3):
+                        ops = _chain(inter, leaf, depth)
+                        # the outermost level is the root process itself: its own part is the prefix
+                        out.append({'kind': 'pool', 'pool': kind, 'ops': pre + [o for o in ops if not isinstance(o, str)]})
+    return out
+
+
+def pool_grid_cases():
+    out = pool_chain_cases()
     for kind in ('generic', 'oracle'):
         for pre in POOL_PREFIX:
             for child in POOL_CHILD:
@@ -131,20 +167,19 @@ def execute(case, workdir):
     raise ValueError(case['kind'])
 
 
-def _pool_nontrivial(ops, connected=False):
-    """a fork whose forking process holds a pooled object at that point, and the forked process calls connect()"""
+def _pool_nontrivial(ops, has=False, inherited=False):
+    """some forked process calls connect() or disconnect() while its pool still holds an object inherited from an
+    ancestor (has: the pool of this process holds an object; inherited: that object came through fork)"""
     for op in ops:
         if isinstance(op, str):
+            if op in ('connect', 'disconnect') and inherited:
+                return True
             if op == 'connect':
-                connected = True
+                has, inherited = True, False
             elif op in ('drop', 'disconnect'):
-                connected = False
-        else:
-            sub = op[1]
-            if connected and 'connect' in [o for o in sub if isinstance(o, str)]:
-                return True
-            if _pool_nontrivial(sub, False):
-                return True
+                has, inherited = False, False
+        elif _pool_nontrivial(op[1], has, has):
+            return True
     return False
 
 
@@ -200,13 +235,23 @@ def run(ctx):
     g_script = st.lists(pleaf, min_size=1, max_size=4)
     c_script = st.lists(st.one_of(pleaf, pleaf, pleaf, st.tuples(st.just('fork'), g_script).map(list)), min_size=1, max_size=6)
     p_script = st.lists(st.one_of(pleaf, pleaf, st.tuples(st.just('fork'), c_script).map(list)), min_size=1, max_size=7)
-    pool_case = st.fixed_dictionaries({'kind': st.just('pool'), 'pool': st.sampled_from(['generic', 'oracle']), 'ops': p_script})
+    # fork chains of depth 2..3 with short (often empty) intermediate scripts
+    inter = st.lists(pleaf, max_size=2)
+    chain1 = st.tuples(inter, g_script).map(lambda t: t[0] + [['fork', t[1]]])
+    chain2 = st.tuples(inter, chain1).map(lambda t: t[0] + [['fork', t[1]]])
+    chain3 = st.tuples(inter, chain2).map(lambda t: t[0] + [['fork', t[1]]])
+    chain_script = st.tuples(st.lists(pleaf, min_size=1, max_size=3), st.one_of(chain2, chain3), st.lists(pleaf, max_size=2)) \
+        .map(lambda t: t[0] + [o for o in t[1] if not isinstance(o, str)] + t[2])
+    pool_case = st.fixed_dictionaries({'kind': st.just('pool'), 'pool': st.sampled_from(['generic', 'oracle']),
+                                       'ops': st.one_of(p_script, p_script, chain_script)})
 
     def t_pool(case):
         evaluate(ctx, case)
 
     leaf = st.sampled_from(['read', 'write', 'getconn', 'disconnect', 'fail_connect', 'read', 'write'])
-    sub_script = st.lists(leaf, min_size=1, max_size=3)
+    leaf_script = st.lists(leaf, min_size=1, max_size=3)
+    sub_op = st.one_of(leaf, leaf, leaf, st.tuples(st.just('fork'), leaf_script).map(list))      # a second fork level
+    sub_script = st.lists(sub_op, min_size=1, max_size=3)
     child_op = st.one_of(leaf, leaf, st.just('rollback'), st.tuples(st.just('fork'), sub_script).map(list))
     plain_case = st.fixed_dictionaries({
         'kind': st.just('sqlite'),
